@@ -95,8 +95,11 @@ Definition branch (parent : ids) (nested : bool) (n : tnode) : ids :=
       let s1 := if root then add_top s0 name else s0 in
       fold_left (visit_child idents_fuel) body (args_ (reads s1 sig_u) a)
   | TCall sig_u a body => fold_left (visit_child idents_fuel) body (args_ (reads s0 sig_u) a)
-  | TNamespace body => fold_left (visit_child idents_fuel) body
-                         {| declared := []; undeclared := []; locally_declared := []; locally_assigned := []; argument_declared := [];
+  | TNamespace body =>
+      (* write_namespaces branches it from the module's scope: nothing of the template's body is shared, the module-level
+         names are (fix e566bb4: they used to be dropped too) *)
+      fold_left (visit_child idents_fuel) body
+                         {| declared := declared parent; undeclared := []; locally_declared := []; locally_assigned := []; argument_declared := [];
                             topleveldefs := []; closuredefs := [] |}
   | other => visit idents_fuel true s0 other
   end.
